@@ -698,11 +698,14 @@ def opt_job(frac, entry):
             state['phase'] = 'other'
     opt.generate_profiles = generate_profiles
     opt.compute_derived_trace = compute_derived_trace
-    if entry == 'direct':
+    if entry in ('direct', 'direct-sol1', 'direct-sol2'):
+        # (direct-solN: the post-processing of the N-th solution of a multi-modal result - the same samples here; the
+        # solution number is a label and must not enter how samples are dealt to ranks or put back in order)
+        sol_no = {'direct': 0, 'direct-sol1': 1, 'direct-sol2': 2}[entry]
         opt.compile_params()
         opt.compute_fit()
-        prof, spec = opt.generate_profiles(0, obs.wavenumberGrid)
-        der = opt.compute_derived_trace(0)
+        prof, spec = opt.generate_profiles(sol_no, obs.wavenumberGrid)
+        der = opt.compute_derived_trace(sol_no)
     else:
         sol = opt.fit()['solution0']
         prof, spec, der = sol['Profiles'], sol['Spectra'], sol['derived_params']
@@ -711,7 +714,7 @@ def opt_job(frac, entry):
     # everything else stored next to the standard deviations (the profiles of the median solution, the spectra of
     # the best solution): arrays only, flat names
     out['stored'] = {}
-    if entry != 'direct':
+    if not entry.startswith('direct'):
         for grp, dct in (('Profiles', prof), ('Spectra', spec)):
             for k_, v_ in dct.items():
                 if isinstance(v_, dict) or k_ in PROF_KEYS or k_ in SPEC_KEYS:
@@ -938,6 +941,8 @@ def opt_cases(tier):
                  'large_n': [9, 17, 24]}
         cases += [{'R': R, 'n': n, 'wlet': wl, 'perm': 0, 'frac': 1.0, 'entry': 'direct'} for R in (2, 3)
                   for n in (9, 17, 24) for wl in ('distinct', 'equal')]
+        cases += [{'R': R, 'n': n, 'wlet': 'distinct', 'perm': 0, 'frac': 1.0, 'entry': en} for R in (1, 2, 3)
+                  for n in (2, 3, 4, 9) for en in ('direct-sol1', 'direct-sol2')]
         # many ranks (the arithmetic that deals samples to ranks is only non-trivial there): just below, just above and
         # well above one sample per rank
         cases += [{'R': R, 'n': n, 'wlet': 'distinct', 'perm': 0, 'frac': 1.0, 'entry': 'direct'}
